@@ -153,7 +153,18 @@ theorem step_inv (s : State) (op : List String) (h : Inv s) : ∀ o ∈ step s o
   · -- recv
     split at ho
     · split at ho
-      · simp at ho; subst ho; exact h
+      · rename_i hq
+        split at ho
+        · simp at ho; subst ho; exact h
+        · rename_i m hm
+          simp at ho
+          rcases ho with rfl | rfl
+          · exact h
+          · apply settled_inv
+            obtain ⟨h1, h2⟩ := h
+            refine ⟨h1, ?_⟩
+            simp only [hq, hm] at h2
+            simpa [List.append_assoc, hq] using h2
       · rename_i m q hq
         simp at ho
         rcases ho with rfl | rfl
